@@ -25,7 +25,7 @@ RULE = (
 )
 ASSUMPTIONS = ["restrict() of labmc/optspace.py defines 'restricted to the keys the class reports'"]
 
-KINDS = ["flat", "dotted", "dotted2", "deep", "defaulted", "ds", "applied", "const", "strconst", "inherited"]
+KINDS = ["flat", "dotted", "dotted2", "deep", "defaulted", "ds", "applied", "const", "strconst", "listconst", "wholesect", "inherited"]
 SPEC = {
     "flat": [("A", [1, 2])],
     "dotted": [("S.X", [1, 2]), ("S.Y", [ABSENT, 9])],
@@ -36,6 +36,8 @@ SPEC = {
     "applied": [("D", [ABSENT, 5])],
     "const": [],
     "strconst": [],
+    "listconst": [],
+    "wholesect": [("T", [{"P": 1, "Q": 2}, {"Q": 2, "P": 1}, {"P": 1, "Q": 3}])],
     "inherited": [("E", [ABSENT, 6])],
 }
 
@@ -61,6 +63,8 @@ def build_class(kinds):
         "applied": Option("D", 1) >> f_tag,
         "const": 7,
         "strconst": "{A}/{S.X}.csv",
+        "listconst": ["raw", {"k": 1}],
+        "wholesect": Option("T"),
     }
     ns = {"__annotations__": {}}
     bases = ()
@@ -153,6 +157,13 @@ def check_class(kinds, res):
         if via_eval.ok and not (via_eval.value == obj):
             fail("evaluate-differs-from-instantiation", "cls.evaluate(o) != cls(o)", o)
         insts.append((o, obj, freeze(r)))
+        # an instance owns its values: changing them in place must not leak into the class or other instances
+        for k in members:
+            v = getattr(obj, "m_" + k)
+            if isinstance(v, list):
+                v.append("scribble")
+            elif isinstance(v, dict):
+                v["scribble"] = 1
     for (oa, a, ra), (ob, b, rb) in itertools.product(insts, repeat=2):
         res["pairs"] += 1
         if freeze(oa) != freeze(ob):
